@@ -10,6 +10,7 @@ The digest is a parameter `D` (hex ∘ SHA-1 in the implementation); where a the
 collision between the two preimages at hand is an explicit hypothesis.
 -/
 import ZoektModel.C38.Capstone
+import ZoektModel.C38.Idem
 import ZoektModel.Generated.C38Options
 namespace ZoektModel.C38
 open ZoektModel
@@ -224,6 +225,49 @@ theorem merge_applies (r x r' : Repo) (m : Bool) (h : mergeMutable r x = .ok (m,
       · simp [hid, hnm, hbr] at h
     · simp [hid, hnm] at h
   · simp [hid] at h
+
+/-- **the merge converges**: merging the same description (distinct RawConfig keys) into the merged repository is
+    not a mutation any more -/
+theorem merge_converges (r x r' : Repo) (m : Bool) (h : mergeMutable r x = .ok (m, r'))
+    (hd : (x.rawConfig.getD []).Pairwise fun a b => a.1 ≠ b.1) : mergeMutable r' x = .ok (false, r') :=
+  mergeMutable_idem r x r' m h hd
+
+/-- **applying the metadata converges**: when `IndexState` says meta-mismatch, merging the new description into the
+    stored repository (what `mergeMeta` writes) yields a repository for which `IndexState` says equal -/
+theorem meta_applied_then_equal (fmt feat : Nat) (r : Repo) (o : Opts)
+    (hd : (o.repo.rawConfig.getD []).Pairwise fun a b => a.1 ≠ b.1)
+    (h : indexStateWith (getHashWith D) V (.shard fmt feat [r]) o = .metaOnly) :
+    ∃ r', mergeMutable r o.repo = .ok (true, r') ∧
+      indexStateWith (getHashWith D) V (.shard fmt feat [r']) o = .equal := by
+  unfold indexStateWith at h
+  simp only at h
+  by_cases hv : versionMismatch V fmt feat = true
+  · simp [hv] at h
+  · simp only [hv, Bool.false_eq_true, if_false] at h
+    by_cases hnm : r.name = o.repo.name
+    · have hf : [r].find? (fun c => c.name = o.repo.name) = some r := by simp [List.find?, hnm]
+      simp only [hf] at h
+      by_cases hio : r.indexOptions = getHashWith D o
+      · by_cases hbr : r.branches = o.repo.branches
+        · simp only [hio, hbr, ne_eq, not_true_eq_false, if_false] at h
+          cases hm : mergeMutable r o.repo with
+          | error e => simp [hm] at h
+          | ok res =>
+            obtain ⟨m, r'⟩ := res
+            cases m with
+            | false => simp [hm] at h
+            | true =>
+              refine ⟨r', rfl, ?_⟩
+              obtain ⟨_, _, _, _, _, hid', hnm', hbr', hio'⟩ := merge_applies r o.repo r' true hm hd
+              have hidem := mergeMutable_idem r o.repo r' true hm hd
+              have hf' : [r'].find? (fun c => c.name = o.repo.name) = some r' := by
+                simp [List.find?, hnm', hnm]
+              unfold indexStateWith
+              simp only [hv, Bool.false_eq_true, if_false, hf', hio', hio, hbr', hbr, ne_eq, not_true_eq_false, hidem]
+        · simp [hio, hbr] at h
+      · simp [hio] at h
+    · have hf : [r].find? (fun c => c.name = o.repo.name) = none := by simp [List.find?, hnm]
+      simp [hf] at h
 
 /-- the known finding, on the model: `MergeMutable` never changes `Metadata`, whatever the new description says -/
 theorem merge_keeps_old_metadata (r x r' : Repo) (m : Bool) (h : mergeMutable r x = .ok (m, r')) :
